@@ -68,6 +68,14 @@ class Gen:
     def on(self, f):
         return self.feats.get(f, False)
 
+    def pool_bindings(self):
+        """Whether {% for %} / {% with %} may bind the colliding pool names (collision mode).
+        Not in django-mode programs that use the `only` flag: there the two open C03 findings (F7: loop layer forwarded
+        into isolated components, F15: captured fill variables merged / misplaced) compose with each other in ways their
+        single-quirk diagnosis models do not reproduce, so a hit could not be told from a new defect. Pool names are
+        still bound by page context and component data, and read everywhere, in those programs."""
+        return bool(self.P.get("collide")) and not (getattr(self, "mode", None) == "django" and self.on("only"))
+
     def expr(self, scope, label="expr"):
         """String-valued expression: literal or a string variable in scope."""
         strs = scope["str"]
@@ -295,11 +303,11 @@ class Gen:
             return ["if", cond, then, els]
         if k == "for":
             lst = ch.choice(scope["list"], "forlist")
-            x = ch.choice(POOL, "loopvar_pool") if (P.get("collide") and ch.chance(1, 2, "loopvar_collide")) else self.newvar("x")
+            x = ch.choice(POOL, "loopvar_pool") if (self.pool_bindings() and ch.chance(1, 2, "loopvar_collide")) else self.newvar("x")
             sc = dict(scope, str=scope["str"] + [x])
             return ["for", x, lst, self.nodes(sc, owner, depth + 1, in_fill=in_fill, in_slot_default=in_slot_default)]
         if k == "with":
-            w = ch.choice(POOL, "with_pool") if (P.get("collide") and ch.chance(1, 2, "with_collide")) else self.newvar("w")
+            w = ch.choice(POOL, "with_pool") if (self.pool_bindings() and ch.chance(1, 2, "with_collide")) else self.newvar("w")
             e = self.expr(scope, "withexpr")
             sc = dict(scope, str=scope["str"] + [w])
             return ["with", w, e, self.nodes(sc, owner, depth + 1, in_fill=in_fill, in_slot_default=in_slot_default)]
@@ -443,7 +451,7 @@ class Gen:
             sc2 = dict(sc, str=sc["str"] + [x])
             body = self.nodes(sc2, owner, depth + 1, in_fill=True)
             return ["for", x, lst, [["fill", ["var", x], data_alias, default_alias, body]]]
-        if wrap == 0 and self.P.get("collide") and getattr(self, "mode", None) == "django" and not self.on("slot_in_fill") \
+        if wrap == 0 and self.pool_bindings() and getattr(self, "mode", None) == "django" and not self.on("slot_in_fill") \
                 and ch.chance(1, 3, "fill_with"):
             # (not combined with slots inside fills: there the captured variables of sibling fills reach each other
             # through shared context objects - the mechanism of open finding F15 - in ways its quirk model does not
@@ -462,7 +470,7 @@ class Gen:
             cond = ch.choice(scope["bool"] + loopvars[-2:], "fillcond")
             return ["if", cond, [f], []]
         if wrap == 2 and scope["list"]:
-            x = ch.choice(POOL, "fillloop_pool") if (self.P.get("collide") and ch.chance(1, 2, "fillloop_collide")) else self.newvar("x")
+            x = ch.choice(POOL, "fillloop_pool") if (self.pool_bindings() and ch.chance(1, 2, "fillloop_collide")) else self.newvar("x")
             lst = ch.choice(scope["list"], "filllooplist")
             sc3 = dict(sc, str=sc["str"] + [x])
             f[4] = self.nodes(sc3, owner, depth + 1, in_fill=True)
